@@ -93,7 +93,7 @@ def r20_1(prog: Program, rep: Report, cls):
             rep.undecided("R20.1", m.qualname, m.loc, f"ast.{node_name} unknown to the running interpreter")
             continue
         fields = expr_fields(node_name)
-        ps = P.paths_of(prog, m)
+        ps = P.splice_helpers(prog, P.paths_of(prog, m))
         for i, p in enumerate(ps):
             if p.exit[0] != "return":
                 continue
@@ -118,7 +118,7 @@ def r20_2(prog: Program, rep: Report, cls):
     if m is None:
         rep.violated("R20.2", cls.qualname, cls.loc, "no visit_BinOp: PEP 604 unions are never rewritten")
         return
-    ps = P.paths_of(prog, m)
+    ps = P.splice_helpers(prog, P.paths_of(prog, m))
     # the rewriting paths are those that build a Subscript
     rew = [p for p in ps if p.exit[0] == "return" and T.contains(p.exit[1], lambda s: T.is_call_to(s, "ast.Subscript"))]
     if not rew:
@@ -190,10 +190,32 @@ def r20_2(prog: Program, rep: Report, cls):
 
 def r20_3(prog: Program, rep: Report):
     mod = prog.module(MOD)
-    tm = T.fold_consts(P.module_term(prog, mod, "_GENERICS"))
-    loc = f"{mod.relpath}:{mod.assign_nodes['_GENERICS'].lineno}"
+    # the table is whatever visit_Name looks node.id up in: a module constant or a class-level constant
+    G = None
+    cls0 = prog.cls(f"{MOD}.TransformAnnotation")
+    vn0 = cls0.methods.get("visit_Name")
+    ident0 = ("attr", NODE, "id")
+    if vn0 is not None:
+        for pth in P.paths_of(prog, vn0):
+            for tm0 in pth.all_terms():
+                for x in T.walk(tm0):
+                    if x[0] == "cmp" and x[1] in ("in", "notin") and x[2] == ident0:
+                        G = G or x[3]
+                    if x[0] == "sub" and x[2] == ident0:
+                        G = G or x[1]
+                    if x[0] == "call" and x[1][0] == "attr" and x[1][2] == "get" and x[2][:1] == (ident0,):
+                        G = G or x[1][1]
+    if G is None:
+        G = ("ref", f"{MOD}._GENERICS")
+    if G[0] == "ref" and G[1].startswith(MOD + "."):
+        nm0 = G[1].rsplit(".", 1)[1]
+        tm = T.fold_consts(P.module_term(prog, mod, nm0))
+        loc = f"{mod.relpath}:{mod.assign_nodes[nm0].lineno}"
+    else:
+        tm = T.fold_consts(G)
+        loc = cls0.loc
     if tm[0] != "dict":
-        raise AnalysisError("_GENERICS is not a dict display")
+        raise AnalysisError("the builtin-generics table is not a dict display")
     import builtins
     import typing
 
@@ -227,7 +249,6 @@ def r20_3(prog: Program, rep: Report):
     if vn is None:
         rep.violated("R20.3", cls.qualname, cls.loc, "no visit_Name: builtin generics are never rewritten", detail="visit_Name")
     else:
-        G = ("ref", f"{MOD}._GENERICS")
         ident = ("attr", NODE, "id")
         good = True
         for p, r in P.returns(P.paths_of(prog, vn)):
@@ -270,7 +291,7 @@ def r20_3(prog: Program, rep: Report):
 def r20_4(prog: Program, rep: Report, cls):
     bad = []
     for name, m in cls.methods.items():
-        for p in P.paths_of(prog, m):
+        for p in P.splice_helpers(prog, P.paths_of(prog, m)):
             for c in p.calls():
                 if T.refname(c[1]) in ("ast.BinOp", "ast.BitOr"):
                     bad.append(f"{name}: {T.show(c)[:60]}")
